@@ -7,6 +7,7 @@ import Complgen.Proofs.RxOfExpr
 import Complgen.Proofs.Passes
 import Complgen.Proofs.Choice
 import Complgen.Proofs.Meaning
+import Complgen.Proofs.SpecAuto
 namespace Complgen.Props.C02
 open Complgen
 
@@ -138,5 +139,18 @@ theorem C02_end_to_end (σ : Schedule) (g : Grammar) (sh : Shell) (v : Check.Val
   intro w
   rw [← he]
   exact C02_raw_model σ v.expr pool symOf a hsym hend h w
+
+/-- **The oracle of the run has the semantics of the theorems**: the determinised partial-derivative
+automaton of the grammar's meaning — the automaton every implementation automaton is decided
+equivalent to, per grammar, by the verified bisimulation checker — accepts exactly the key sequences
+of the words (`denPos`) of `Spec.meaning g sh` (`Proofs/Antimirov.lean`: partial derivatives and the
+work-list construction; `Proofs/SpecAuto.lean`: the regular expression of an expression).  The two
+hypotheses are evaluated by the driver for every explored grammar (`fin`, `nea`). -/
+theorem oracle_has_theorem_semantics (g : Grammar) (sh : Shell) (hn : Spec.NoEmptyAlt (Spec.meaning g sh) = true)
+    (hfin : Spec.Finished (Spec.toSRx Spec.wordKey (Spec.meaning g sh))) (kw : List String) :
+    (Spec.specAuto g sh).accepts kw = true ↔
+      ∃ ps, (Spec.meaning g sh).denPos 0 ps ∧
+        ps.map (Spec.keyAt (Spec.leafKeys Spec.wordKey (Spec.meaning g sh)) 0) = kw :=
+  Spec.specAuto_correct g sh hn hfin kw
 
 end Complgen.Props.C02
